@@ -205,6 +205,19 @@ impl UnionArray {
             }
         }
 
+        // Each child array must have the data type declared by its field.
+        for (child, (_, field)) in children.iter().zip(fields.iter()) {
+            // nested field names and metadata are not part of the array layout
+            if !child.data_type().equals_datatype(field.data_type()) {
+                return Err(ArrowError::InvalidArgumentError(format!(
+                    "Union child array for field \"{}\" has data type {} but the field declares {}",
+                    field.name(),
+                    child.data_type(),
+                    field.data_type()
+                )));
+            }
+        }
+
         // Create mapping from type id to array lengths.
         let max_id = fields.iter().map(|(i, _)| i).max().unwrap_or_default() as usize;
         let mut array_lens = vec![i32::MIN; max_id + 1];
